@@ -365,10 +365,12 @@ package pkg
 //@   nopanic
 //@   modifies $allocated
 //@   trusted_ensures r == tr_operand(o, noWrap, negation) && (err == nil) == ok_operand(o, noWrap, negation)
-//@   checks[C18] str: isStr(o) ==> err == nil && r == as(o, string)
-//@   checks[C18] num: isF64(o) ==> err == nil && r == fmt_v_F64(as(o, float64))
-//@   checks[C18] boolean: isBool(o) ==> err == nil && r == ite(as(o, bool), "true", "false")
-//@   checks[C18] nested: isObj(o) ==> (err == nil) == ok_ex(o, 0) && (err == nil ==> r == ite(nw_ex(o, 0) || noWrap, tr_ex(o, 0), ite(negation, "!(" + tr_ex(o, 0) + ")", "(" + tr_ex(o, 0) + ")")))
+// `negation` asks for the logical negation of the operand (the one-operand form of "not"): it must reach EVERY operand form -
+// a plain GRL string, a boolean, and a nested object whether or not that object needs parentheses of its own; a number cannot be negated
+//@   checks[C18] str: isStr(o) ==> err == nil && r == ite(negation, "!(" + as(o, string) + ")", as(o, string))
+//@   checks[C18] num: isF64(o) ==> (err == nil) == !negation && (err == nil ==> r == fmt_v_F64(as(o, float64)))
+//@   checks[C18] boolean: isBool(o) ==> err == nil && r == ite(as(o, bool) != negation, "true", "false")
+//@   checks[C18] nested: isObj(o) ==> (err == nil) == ok_ex(o, 0) && (err == nil ==> r == ite(negation, "!(" + tr_ex(o, 0) + ")", ite(nw_ex(o, 0) || noWrap, tr_ex(o, 0), "(" + tr_ex(o, 0) + ")")))
 //@   checks[C18] other: !isStr(o) && !isF64(o) && !isBool(o) && !isObj(o) ==> err != nil
 //@ func parseCallOperand(o) (r, err)
 //@   serves C18 C20
@@ -452,16 +454,19 @@ package pkg
 //@ axiom od_opsof_el: forall a []any, n bool, j int {opsOf(a, n)[j]} :: 0 <= j && j < len(a) ==> opsOf(a, n)[j] == tr_operand(a[j], false, n)
 //@ extern pure func tr_join(v Ref, operator string) string
 //@ extern pure func ok_join(v Ref, operator string) bool
+// "not" is the documented != operator between its operands (grouped as nested, never negated); with a SINGLE operand it is the
+// logical negation of that operand (pkg/JsonResource_test.go jsonNegation). From the documentation, not from the code.
+//@ macro func negOne(operator string, n int) bool { return operator == " != " && n == 1 }
 //@ func joinOperator(v, operator) (r, err)
 //@   serves C18 C20
 //@   opt axioms=od_opsof_len,od_opsof_el,od_join_ext
 //@   nopanic
 //@   modifies $allocated
 //@   trusted_ensures r == tr_join(v, operator) && (err == nil) == ok_join(v, operator)
-//@   invariant@1[C18] acc: len(ops) == len(arr) && (forall j int :: 0 <= j && j < i ==> ops[j] == tr_operand(arr[j], false, operator == " != ") && ok_operand(arr[j], false, operator == " != "))
+//@   invariant@1[C18] acc: len(ops) == len(arr) && (forall j int :: 0 <= j && j < i ==> ops[j] == tr_operand(arr[j], false, negOne(operator, len(arr))) && ok_operand(arr[j], false, negOne(operator, len(arr))))
 //@   checks[C18] arity: !isArr(v) || len(as(v, "[]any")) == 0 ==> err != nil
-//@   checks[C18] operandfails: isArr(v) && (exists j int :: 0 <= j && j < len(as(v, "[]any")) && !ok_operand(as(v, "[]any")[j], false, operator == " != ")) ==> err != nil
-//@   checks[C18] format: isArr(v) && err == nil ==> r == str_join(opsOf(as(v, "[]any"), operator == " != "), operator)
+//@   checks[C18] operandfails: isArr(v) && (exists j int :: 0 <= j && j < len(as(v, "[]any")) && !ok_operand(as(v, "[]any")[j], false, negOne(operator, len(as(v, "[]any"))))) ==> err != nil
+//@   checks[C18] format: isArr(v) && err == nil ==> r == str_join(opsOf(as(v, "[]any"), negOne(operator, len(as(v, "[]any")))), operator)
 //@ func joinSet(v, operator) (r, err)
 //@   serves C18 C20
 //@   opt strite=1
